@@ -52,6 +52,7 @@ func runC17(c *Ctx) {
 	L.Floor("input-unmodified", 4, "four functions, two inputs each (floor = half of the instances on the pinned tree: a clean-up may merge instances, a rule that sees nothing must still fail)")
 	c.checkSiteSelectionFresh("site-selection-fresh")
 	c.checkPairScanFull("pair-scan-full")
+	c.checkProteinJCFormula("jc-formula")
 	c.checkArgNameOrder("arg-name-order", "distance/protein", "models", "models/protein")
 	c.checkPairedLines("paired-lines", "distance/protein", "models", "models/protein")
 }
